@@ -36,7 +36,7 @@ func main() {
 		return
 	}
 	r := evidence.New("C02", "fault_enumeration")
-	r.Rule("phase single: case = seeded DAG ≤ 10 nodes × pairing × API ∈ {Copy, CopyGraph, ExtendedCopyGraph} × Concurrency ∈ {1,3}; a fault-free run lists the reached fault points (op ∈ {src.Fetch, src.Read, src.ReadMid, src.Resolve, src.FetchReference, src.Predecessors, dst.Exists, dst.Push.before/.after, dst.PushReference.before/.after, dst.Tag, dst.Mount, cb.PreCopy/PostCopy/OnCopySkipped/OnMounted/MountFrom}, node, ordinal); every reached point is faulted with an error and with a cancellation on fresh stores (exhaustive per case); " +
+	r.Rule("phase single: case = seeded DAG ≤ 10 nodes × pairing × API ∈ {Copy, CopyGraph, ExtendedCopyGraph} × Concurrency ∈ {1,3}; a fault-free run lists the reached fault points (op ∈ {src.Fetch, src.Read, src.ReadMid, src.Resolve, src.FetchReference, src.Predecessors, dst.Exists, dst.Push.before/.after, dst.PushReference.before/.after, dst.Tag, dst.Mount, cb.PreCopy/PostCopy/OnCopySkipped/OnMounted/MountFrom}, node, ordinal); every reached point is faulted with an error, with a cancellation reported by the operation and with a cancellation after which the operation still answers normally, plus a call with an already cancelled context, each on fresh stores (exhaustive per case); " +
 		"phase multi: 1–3 random simultaneous faults on DAGs ≤ 40 nodes with seeded latencies. Each faulted run is one evaluation; distinct = hash(DAG shape, pairing, API, concurrency, fault point class, kind); non-trivial = the fault was actually hit and the graph has ≥ 3 nodes")
 	r.Assume("a hang is declared only on a logical proof: no return, progress counter unchanged, no storage operation in flight, every library goroutine parked; the wall-clock watchdog alone is inconclusive")
 	r.Assume("every fault point of the small cases is enumerated; interleavings under Concurrency 3 are sampled")
@@ -46,11 +46,11 @@ func main() {
 		raceDir, _ := os.MkdirTemp("", "verif-c02-race-")
 		r.Cleanup(func() { os.RemoveAll(raceDir) })
 		worker.Run(r, worker.Opts{Phase: "race", Total: r.N(80, 1000), Batch: 20, Bin: bin, Timeout: 30 * time.Minute,
-			Env: []string{"GORACE=halt_on_error=0 log_path=" + filepath.Join(raceDir, "race")}})
+			Env: []string{"GORACE=halt_on_error=0 exitcode=0 log_path=" + filepath.Join(raceDir, "race")}})
 		mon.ReportRaces(r, raceDir)
 	}
 	r.Exhaustive(true)
-	r.Set("exhaustive_scope", "single-fault tier: every fault point reached by the fault-free run of each small case, × {error, cancel}")
+	r.Set("exhaustive_scope", "single-fault tier: every fault point reached by the fault-free run of each small case, × {error, cancel, cancel-silent} + already-cancelled context")
 	r.Finish(r.N(150, 3000))
 }
 
@@ -108,6 +108,12 @@ func execute(ctx context.Context, res *worker.Result, c *copymon.Case, faults []
 		w["reached"] = e.Mon.ReachedPoints()
 		w["pushed_order"] = e.Mon.PushedNodes()
 		return w
+	}
+	for _, f := range faults {
+		if f.Point == "pre-call" {
+			cancel() // the context is already cancelled when the call is made
+			e.Mon.Faults = append(e.Mon.Faults, &copymon.Fault{Point: "pre-call", Kind: "cancel", Hit: true})
+		}
 	}
 	out := c.RunSupervised(cctx, e, 2*time.Minute)
 	res.Count("faulted_runs", 1)
@@ -261,13 +267,17 @@ func runCase(phase string, i int) worker.Result {
 		}
 		// de-duplicate (ordinals make them unique already) and sort for determinism
 		sort.Strings(points)
+		points = append([]string{"pre-call"}, points...)
 		res.Count("fault_points_enumerated", int64(len(points)))
 		if out.Err != nil && c.Expect >= 0 {
 			res.Count("fault_free_failures", 1)
 		}
 		nt := 0
 		for _, p := range points {
-			for _, kind := range []string{"error", "cancel"} {
+			for _, kind := range []string{"error", "cancel", "cancel-silent"} {
+				if p == "pre-call" && kind != "cancel" {
+					continue
+				}
 				before := len(res.Viol)
 				restart := execute(ctx, &res, c, []faultSpec{{p, kind}}, pointClass(p)+"/"+kind)
 				res.Evals++
@@ -312,7 +322,7 @@ func runCase(phase string, i int) worker.Result {
 	for j := 0; j < k; j++ {
 		op := ops[rng.IntN(len(ops))]
 		n := nodes[rng.IntN(len(nodes))]
-		kind := []string{"error", "error", "cancel"}[rng.IntN(3)]
+		kind := []string{"error", "error", "cancel", "cancel-silent"}[rng.IntN(4)]
 		faults = append(faults, faultSpec{fmt.Sprintf("%s:%d#0", op, n), kind})
 	}
 	res.Restart = execute(ctx, &res, c, faults, "multi")
